@@ -440,10 +440,14 @@ def replay_file(st, path, origin):
 
 # ---------------------------------------------------------------------------- exhaustive part
 def enum_configs(tier):
+    """`who`: the harness flavours that run the configuration (the Lean driver always does).  In the thorough tier
+    the ASan+asserts build (8x slower) covers sequences one shorter than the NDEBUG build; the quick tier runs both
+    builds on everything."""
     cfgs = []
+    both = ("ndebug", "asan")
 
-    def add(mode, minsize, nkeys, ln, plen):
-        cfgs.append({"mode": mode, "minsize": minsize, "nkeys": nkeys, "len": ln, "plen": plen})
+    def add(mode, minsize, nkeys, ln, plen, who=both):
+        cfgs.append({"mode": mode, "minsize": minsize, "nkeys": nkeys, "len": ln, "plen": plen, "who": list(who)})
     if tier == "quick":
         for m in range(8):
             add(m, 2, 3, 5, 1)
@@ -453,12 +457,16 @@ def enum_configs(tier):
         add(7, 4, 3, 6, 2)
     else:
         for m in range(8):
-            add(m, 2, 3, 7, 2)
+            add(m, 2, 3, 7, 2, ("ndebug",))
+            add(m, 2, 3, 6, 2, ("asan",))
         for m in (0, 2, 7):
-            add(m, 2, 4, 6, 2)
+            add(m, 2, 4, 6, 2, ("ndebug",))
+            add(m, 2, 4, 5, 2, ("asan",))
         for m in (0, 1):
-            add(m, 4, 3, 7, 2)
-        add(2, 4, 4, 6, 2)
+            add(m, 4, 3, 7, 2, ("ndebug",))
+            add(m, 4, 3, 6, 2, ("asan",))
+        add(2, 4, 4, 6, 2, ("ndebug",))
+        add(2, 4, 4, 5, 2, ("asan",))
         add(4, 8, 3, 6, 2)
     return cfgs
 
@@ -510,6 +518,8 @@ def enum_part(st):
         bounds = [npfx * k // nchunks for k in range(nchunks + 1)]
         for k in range(nchunks):
             for who in who_order:
+                if who != "model" and who not in c["who"]:
+                    continue
                 tasks.append((ci, bounds[k], bounds[k + 1], who))
     tasks.sort(key=lambda t: (who_order.index(t[3]), t[0], t[1]))
     failed_chunks = [0]
@@ -572,14 +582,14 @@ def enum_part(st):
                 mblk.update(r["blk"])
         n_ok = 0
         for fl in ("ndebug", "asan"):
-            for lo, hi, r in sorted(per[(ci, fl)], key=lambda x: x[0]):
+            for lo, hi, r in sorted(per.get((ci, fl), []), key=lambda x: x[0]):
                 if r is None:
                     skipped += 1
                     continue
                 for p in range(lo, hi):
                     if p in r["cnt"]:
                         leaves[fl] += r["cnt"][p][0]
-                        if fl == "ndebug":
+                        if fl == c["who"][0]:       # count each configuration's sequences once
                             for k in range(5):
                                 sums[k] += r["cnt"][p][k]
                     if p not in r["blk"]:
@@ -927,7 +937,8 @@ def _run_stages(ck, exes, t0):
         "all op sequences of length %s over %s keys (find/insert/replace/delete per key + clear), hash modes %s; %s" % (
             "/".join(str(x) for x in sorted({c["len"] for c in cfgs})),
             "/".join(str(x) for x in sorted({c["nkeys"] for c in cfgs})), modes,
-            "; ".join("mode %d minsize %d: %d keys len %d" % (c["mode"], c["minsize"], c["nkeys"], c["len"]) for c in cfgs)))
+            "; ".join("mode %d minsize %d: %d keys len %d (%s)" % (c["mode"], c["minsize"], c["nkeys"], c["len"], "+".join(c["who"]))
+                      for c in cfgs)))
     ck.sample({"htab_enum": st.dist.get("enum", {}).get("configs", [])[:2], "max_len": L})
     ck.assumptions += [
         "HTAB: min_size <= 2^31 and the table stays below 2^32 entries (htab_size_t is unsigned; size doubling is not checked for overflow)",
